@@ -23,7 +23,7 @@ def cases(tier, seed):
     rng = T.Rng(seed * 1000003 + 8)
     out = []
     layouts = T.LAYOUTS_QUICK if tier == "quick" else T.LAYOUTS_QUICK + [(2, 4), (4, 2), (1, 8), (5, 2)]
-    reps = 1 if tier == "quick" else 6
+    reps = 3 if tier == "quick" else 14
     for _ in range(reps):
         for (N, P) in layouts:
             for routing in T.ROUTINGS:
